@@ -120,9 +120,11 @@ FullSyncMove<SlotType, BUFFER_SIZE> {
     #[inline(always)]
     fn available_elements_count(&self) -> usize {
         #[cfg(feature = "verif")] crate::verif::yield_point_r("fsm.len");
-        let tail = unsafe { &* self.tail.get() };
-        let head = unsafe { &* self.head.get() };
-        tail.overflowing_sub(*head).0 as usize
+        // `head` is sampled first: `tail` never falls behind a `head` sampled earlier, so the difference cannot go "negative" (and wrap to ~2^32)
+        // when elements are published & consumed between the two (lock-free) reads; it is also never reported above the capacity
+        let head = unsafe { *self.head.get() };
+        let tail = unsafe { *self.tail.get() };
+        (tail.overflowing_sub(head).0 as usize).min(BUFFER_SIZE)
     }
 
     #[inline(always)]
